@@ -33,6 +33,7 @@ type LoopSpec struct {
 	Decreases  *Clause
 	Unroll     int // >0: unroll this many times instead of using an invariant (bounded by operand width)
 	WritesFresh bool // every heap write in the loop targets an object allocated after function entry (or a loop-invariant root)
+	Assigns     []string // loop frame: the objects (assigns designators, evaluated at loop entry) the body may write besides loop-invariant roots and objects it allocates
 }
 
 // Contract is everything stated about one function.
@@ -416,6 +417,8 @@ func (cs *ContractSet) ParseContractFile(path, pkgPath string, trusted bool) err
 						return fmt.Errorf("%s: only 'loop N writes fresh' is supported", where)
 					}
 					ls.WritesFresh = true
+				case "assigns":
+					ls.Assigns = append(ls.Assigns, txt)
 				case "unroll":
 					k, err := strconv.Atoi(txt)
 					if err != nil {
